@@ -242,7 +242,13 @@ impl BinaryDeserializer for Duration {
     fn deserialize(context: &mut DeserializationContext<'_>) -> Result<Self> {
         let seconds = context.read_u64()?;
         let nanos = context.read_u32()?;
-        Ok(Duration::new(seconds, nanos))
+        let carry = (nanos / 1_000_000_000) as u64;
+        let seconds = seconds.checked_add(carry).ok_or_else(|| {
+            Error::DeserializationFailure(
+                "Failed to deserialize Duration: seconds overflow".to_string(),
+            )
+        })?;
+        Ok(Duration::new(seconds, nanos % 1_000_000_000))
     }
 }
 
